@@ -74,6 +74,15 @@ Theorem C17_output_kind : forall max d args tr v out,
 Proof. exact output_kind. Qed.
 Print Assumptions C17_output_kind.
 
+(* 6b. lexical scoping: the interpreter keeps one environment for the whole run (variables bound by one arm
+       stay visible later); for a well-scoped declaration (every arm uses only its own pattern's variables and
+       inputs that no pattern rebinds) this is unobservable: the run equals the lexically scoped run. *)
+Theorem C17_lexical_scoping : forall d,
+  well_scoped d = true ->
+  forall n e0 st, run (d_arms d) n e0 st = run_lex (d_arms d) n e0 st.
+Proof. exact lexical_scoping. Qed.
+Print Assumptions C17_lexical_scoping.
+
 (* 7. never_hangs / limit_stops: [run_fsm] is a total function; it makes at most max_steps visits; a run that
       needs more than max_steps iterations is cut off with the limit outcome after exactly max_steps of them;
       a run that ends by itself is not affected by a larger limit. *)
@@ -193,6 +202,13 @@ Example C17_example_rejections :
   run_fsm 40 counter [] = RReject RjArgCount.
 Proof. exact rejected_examples. Qed.
 Print Assumptions C17_example_rejections.
+
+Example C17_example_environment_leak :
+  well_scoped counter = true /\ well_scoped vsum = true /\ well_scoped leak = false /\
+  (exists tr, run_fsm 40 leak [AS "u64" 1; AS "u64" 10] = RRun tr (ODone (VNum 3))) /\
+  snd (run_lex (d_arms leak) 40 [("m", VNum 10); ("n", VNum 1)] ("A", [VNum 1])) = ODone (VNum 12).
+Proof. exact leak_example. Qed.
+Print Assumptions C17_example_environment_leak.
 
 Example C17_example_non_terminating : forall n max, (0 <= n <= 100)%Z ->
   exists tr st, run_fsm max spin [AS "u64" n] = RRun tr (OLimit st) /\ List.length tr = max.
